@@ -12,7 +12,7 @@ Section PartitionP.
   Variable deqb : D -> D -> bool.
   Variable f_eq_Z : F -> Z -> bool.
   Variable show_float : F -> str.
-  Variable parse_float : str -> option F.
+  Variable parse_float : bool -> str -> option F.
   Variable show_time_iso show_time_str : T -> str.
   Variable parse_time_np parse_time_fmt parse_time_pd : str -> option T.
   Variable parse_delta : str -> option D.
@@ -37,7 +37,7 @@ Section PartitionP.
     | KInt sg bits, VInt z => in_range sg bits z = true
     | KBool, VBool _ => True
     | KStr, VStr _ => True
-    | KFloat, VFloat _ => True
+    | KFloat _, VFloat _ => True
     | KTime _, VTime _ => True
     | KCat, VCat _ => True
     | _, _ => False
@@ -62,7 +62,7 @@ Section PartitionP.
   Lemma roundtrip_cat_int_refuted hive : ~ roundtrips hive KCat (VCat (VInt 1)).
   Proof. unfold roundtrips. cbn. discriminate. Qed.
 
-  Lemma roundtrip_float f hive : parse_float (show_float f) = Some f -> roundtrips hive KFloat (VFloat f).
+  Lemma roundtrip_float f hive single : parse_float single (show_float f) = Some f -> roundtrips hive (KFloat single) (VFloat f).
   Proof. intros H. unfold roundtrips. cbn. now rewrite H. Qed.
 
   Lemma roundtrip_time t ns : parse_time_np (show_time_iso t) = Some t -> roundtrips true (KTime ns) (VTime t).
@@ -101,7 +101,7 @@ Section PartitionP.
   (* ---------------------------------------------------------------- veqb on values of one kind *)
   Definition of_kind (k : kind) (v : value) : Prop :=
     match k, v with
-    | KInt _ _, VInt _ | KBool, VBool _ | KStr, VStr _ | KCat, VStr _ | KFloat, VFloat _ | KTime _, VTime _ => True
+    | KInt _ _, VInt _ | KBool, VBool _ | KStr, VStr _ | KCat, VStr _ | KFloat _, VFloat _ | KTime _, VTime _ => True
     | _, _ => False
     end.
 
@@ -111,7 +111,7 @@ Section PartitionP.
     - destruct (parse_int x); [|discriminate]. destruct (in_range _ _ _); [|discriminate]. now intros [= <-].
     - now intros [= <-].
     - now intros [= <-].
-    - destruct (parse_float x); [|discriminate]. cbn. now intros [= <-].
+    - destruct (parse_float single x); [|discriminate]. cbn. now intros [= <-].
     - destruct (parse_time_np x); [now intros [= <-]|]. destruct ns; [|discriminate].
       destruct (parse_time_fmt x); [|discriminate]. cbn. now intros [= <-].
     - now intros [= <-].
